@@ -107,6 +107,53 @@ theorem C11_l0_range_overflow_fails :
   obtain ⟨p, hp, hpe⟩ := List.mem_map.mp hmem
   exact ⟨p, hp, hpe⟩
 
+/-- After ANY crash and restart, once `segments.idx` exists the live segment list names only
+directories the index names — for EVERY durable state. The index entry of a flushed segment is
+saved after all its files are written, a compaction replaces the index after its output is
+written: so the live list never names a segment whose files are incomplete ("at no instant,
+including after a crash"). Before the repair 113ae95 the live list was the directory listing. -/
+theorem C11_restart_serves_only_registered (s : Shard) (h : s.indexExists = true) :
+    ∀ id ∈ (restart (crash s)).live, ∃ ent ∈ s.index, ent.1 = id := by
+  intro id hid
+  have hl : (restart (crash s)).live
+      = published (crash s) (sortNat (((crash s).segs.map (·.1)).eraseDups)) := by simp [restart]
+  rw [hl] at hid
+  have := (mem_published.mp hid).2
+  simpa [Served, crash, h] using this
+
+/-- A process kill INSIDE a segment write (`crashMid`: the directory exists, its files are
+incomplete): the restart does not put that directory in the live list, provided an index file
+exists and does not name the id (ids handed to rotations are fresh, `C11_rotation_id_unused`). -/
+theorem C11_incomplete_directory_not_served (s : Shard) (j : Job) (rest : List Job)
+    (hjobs : s.jobs = j :: rest) (h0 : j.step = 0) (hne : j.evs ≠ [])
+    (hidx : s.indexExists = true) (hfresh : ∀ ent ∈ s.index, ent.1 ≠ j.seg) :
+    j.seg ∉ (crashMid s).live := by
+  have hcm : crashMid s = restart (crash (midWrite s j)) := by
+    have hemp : j.evs.isEmpty = false := by
+      cases hj : j.evs with
+      | nil => exact absurd hj hne
+      | cons a as => rfl
+    simp [crashMid, hjobs, h0, hemp]
+  rw [hcm]
+  intro hmem
+  obtain ⟨ent, hent, he⟩ := C11_restart_serves_only_registered (midWrite s j) (by simpa [midWrite] using hidx) _ hmem
+  exact hfresh ent (by simpa [midWrite] using hent) he
+
+/-- Non-vacuity: second rotation of a shard, killed inside its segment write. -/
+example :
+    let s := runOps (Shard.init 2 2) [.store ⟨1,0,0⟩, .store ⟨2,0,0⟩, .drain, .store ⟨3,0,0⟩, .store ⟨4,0,0⟩]
+    (s.jobs.map (·.seg)) = [1] ∧ s.indexExists = true ∧ (crashMid s).live = [0] ∧
+      (crashMid s).segs.map (·.1) = [0, 1] ∧ visibleKeys (crashMid s) = [3, 4, 1, 2] := by
+  decide
+
+/-- Without an index file the statement is FALSE: the restart serves every directory, also the
+incomplete one of a kill inside the FIRST segment write of a shard (finding
+C01-kill-in-first-segment-write, replayed on the engine). -/
+theorem C11_incomplete_first_directory_served_fails :
+    let s := runOps (Shard.init 2 2) [.store ⟨1,0,0⟩, .store ⟨2,0,0⟩]
+    s.indexExists = false ∧ (crashMid s).live = [0] ∧ (crashMid s).poisoned = true := by
+  decide
+
 /-- Non-vacuity: a history with a crash in the middle of a flush and a restart. -/
 example :
     let s := runOps (Shard.init 2 2) [.store ⟨1,0,0⟩, .store ⟨2,0,0⟩, .flushStep, .crash, .store ⟨3,0,0⟩]
